@@ -1,4 +1,5 @@
 import Logrange.Model.RdOffset
+import Logrange.Generated.C03
 /-!
 # `Querier.Query` and the cursor provider as far as paging sees it
 
@@ -91,7 +92,12 @@ def applyState (h : Held) (qtext : Nat) (p : PosText) : Option Held :=
   if h.qtext ≠ qtext then none else
   if h.pos = p then some h else
   match p with
-  | .map m => some { h with pos := p, cur := applyStatePos h.cur m }
+  | .map m =>
+    let c := applyStatePos h.cur m
+    -- the repair of F22 (a regenerated fact while it is only proposed): the fiterator's cached event and the mixers'
+    -- selections are dropped by a direction switch there and back
+    let c := if Generated.C03.applyStateDropsBuffers then curSetBackward (curSetBackward c true) false else c
+    some { h with pos := p, cur := c }
   | _ => none      -- "", head, tail do not parse as `name=pos`
 
 /-- the read loop of `Query` -/
